@@ -569,7 +569,7 @@ func Decoders() []Decoder {
 	return []Decoder{
 		{"bgzf", []func(*B){specBGZF}, false, decBGZF},
 		{"bam", []func(*B){specBAMPayload}, true, decBAM},
-		{"bamhdr", []func(*B){specBAMHeaderOnly}, false, decBAMHeader},
+		{"bamhdr", []func(*B){specBAMHeaderOnly, specBAMHeaderMany}, false, decBAMHeader},
 		{"bai", []func(*B){specBAI}, false, decBAI},
 		{"tabix", []func(*B){specTabix}, false, decTabix},
 		{"csi", []func(*B){specCSI(1), specCSI(2)}, false, decCSI},
